@@ -102,12 +102,23 @@ def repair_part_helpers(src):
                   r"return static_cast<\1*>(static_cast<void*>(\2));", src)
 
 
-def build_raw(text, workdir, stem, driver_src, patch=None):
+def build_raw(text, workdir, stem, driver_src, patch=None, included_text=None):
+    """included_text: definitions that go into a second file which `stem`
+    includes; both files are given to ONE prophyc run (the included file's
+    nodes are then walked once per includer and once for themselves)."""
     path = os.path.join(workdir, stem + ".prophy")
+    sources = [stem + ".pp.cpp"]
+    argv = [path]
+    if included_text:
+        with open(os.path.join(workdir, "inner.prophy"), "w") as f:
+            f.write(included_text)
+        text = '#include "inner.prophy"\n' + text
+        argv.append(os.path.join(workdir, "inner.prophy"))
+        sources.append("inner.pp.cpp")
     with open(path, "w") as f:
         f.write(text)
     try:
-        P.run_prophyc([path, "--cpp_out", workdir])
+        P.run_prophyc(argv + ["--cpp_out", workdir])
     except BaseException as e:  # noqa
         raise C.BuildFailure("prophyc", "%s: %s" % (type(e).__name__, str(e)[:2000]))
     if patch:
@@ -120,7 +131,7 @@ def build_raw(text, workdir, stem, driver_src, patch=None):
         f.write(driver_src)
     exe = os.path.join(workdir, "drv")
     objs = []
-    for srcf in (stem + ".pp.cpp", "drv.cpp"):
+    for srcf in sources + ["drv.cpp"]:
         rc, out = C.run_cmd(["g++"] + RAW_FLAGS + ["-I", C.INCLUDE, "-I", C.CPP_DIR, "-I", workdir, "-c", srcf,
                                                    "-o", srcf + ".o"], workdir)
         if rc != 0:
@@ -147,7 +158,17 @@ def worker(inner_defs, groups, extra):
         try:
             envs, text = render_batch(inner_defs, gs)
             drv, expect = gen_raw_driver(envs, gs, len(inner_defs), "b", with_swap="swap" in checks)
-            exe = build_raw(text, sub, "b", drv)
+            inner_text = None
+            if inner_defs and sum(map(ord, str(gs[0]["gid"]))) % 2 == 0:
+                # every second batch: the shared inner types in an included file of their own
+                first = next(iter(envs.values()))
+                inner_text = first.render(range(1, len(inner_defs) + 1))
+                if text.startswith(inner_text):
+                    text = text[len(inner_text):]
+                    res["n_checked"]["batches_with_included_file"] = res["n_checked"].get("batches_with_included_file", 0) + 1
+                else:
+                    inner_text = None
+            exe = build_raw(text, sub, "b", drv, included_text=inner_text)
             built.append((gs, envs, exe, sub, expect))
         except C.BuildFailure as e:
             shutil.rmtree(sub, ignore_errors=True)
